@@ -29,10 +29,12 @@ func init() {
 			"HANDLER-SYNC: server maps are not reachable from goroutines; no AsyncHandler",
 			"TEXT-AGREE: one text per request for parsing, completing, storing and converting positions; tree and text from the same document record",
 			"DIAG-SOURCE: diagnostics are exactly the converted ranges of the parse's unpacked errors",
+			"DIAG-ORDER: diagnostics published from a goroutine per update are sent under a mutex and only past a comparison with the update's sequence number",
+			"LSP-INDEX: every constant-index element access on a string or slice in pkg/lsp has a length bound proven on every path",
 		},
 		Patterns:  []string{"./pkg/lsp/..."},
 		Run:       runC44,
-		MinCounts: map[string]int{"WIRE-GUARD": 2, "HANDLER-SYNC": 2, "TEXT-AGREE": 4, "DIAG-SOURCE": 5},
+		MinCounts: map[string]int{"WIRE-GUARD": 2, "HANDLER-SYNC": 2, "TEXT-AGREE": 4, "DIAG-SOURCE": 5, "DIAG-ORDER": 1},
 		Trusted:   append([]string{"json.Unmarshal leaves absent members at their zero value (nil pointer, nil slice)", "jsonrpc2 calls the handler with a non-nil *Request, one request at a time unless AsyncHandler is used"}, trustedBase...),
 		Controls: []core.Control{
 			{Name: "revert-fix-missing-params-deref", Rule: "WIRE-GUARD", File: "pkg/lsp/server.go", Old: "\t\tvar params json.RawMessage\n\t\tif req.Params != nil {\n\t\t\tparams = *req.Params\n\t\t}\n", New: "\t\tparams := *req.Params\n", Fire: true, Want: "Params", Quick: true},
@@ -43,6 +45,11 @@ func init() {
 			{Name: "benign-last-change-guarded", Rule: "WIRE-GUARD", File: "pkg/lsp/server.go", Old: "params.ContentChanges[0].Text", New: "params.ContentChanges[len(params.ContentChanges)-1].Text", Fire: false},
 			{Name: "benign-all-changes-in-a-loop", Rule: "WIRE-GUARD", File: "pkg/lsp/server.go", Old: "\turi, content := params.TextDocument.URI, params.ContentChanges[0].Text", New: "\turi, content := params.TextDocument.URI, \"\"\n\tfor _, ch := range params.ContentChanges {\n\t\tcontent = ch.Text\n\t}", Fire: false},
 			{Name: "position-used-as-line-index", Rule: "WIRE-GUARD", File: "pkg/lsp/server.go", Old: "\tpos := lspPositionToIdx(document.code, params.Position)\n", New: "\tpos := lspPositionToIdx(document.code, params.Position)\n\t_ = document.code[params.Position.Line:]\n", Fire: true, Want: "hover"},
+			{Name: "hover-indexes-an-empty-variable-name", Rule: "LSP-INDEX", File: "pkg/lsp/server.go", Old: "\t\tmarkdown, err := doc.Source(\"$\" + primary.Value)", New: "\t\tname := primary.Value\n\t\tif name[0] == '@' {\n\t\t\tname = name[1:]\n\t\t}\n\t\tmarkdown, err := doc.Source(\"$\" + name)", Fire: true, Want: "hover"},
+			{Name: "benign-hover-strips-sigil-after-length-check", Rule: "LSP-INDEX", File: "pkg/lsp/server.go", Old: "\t\tmarkdown, err := doc.Source(\"$\" + primary.Value)", New: "\t\tname := primary.Value\n\t\tif len(name) > 0 && name[0] == '@' {\n\t\t\tname = name[1:]\n\t\t}\n\t\tmarkdown, err := doc.Source(\"$\" + name)", Fire: false},
+			{Name: "revert-fix-diagnostics-unordered", Rule: "DIAG-ORDER", File: "pkg/lsp/server.go", Old: "\t\ts.publishMu.Lock()\n\t\tdefer s.publishMu.Unlock()\n\t\tif s.published[uri] > seq {\n\t\t\t// The diagnostics of a newer text have already been published.\n\t\t\treturn\n\t\t}\n\t\ts.published[uri] = seq\n", New: "\t\t_ = seq\n", Fire: true, Want: "order"},
+			{Name: "diagnostics-serialized-but-stale-ones-kept", Rule: "DIAG-ORDER", File: "pkg/lsp/server.go", Old: "\t\tif s.published[uri] > seq {\n\t\t\t// The diagnostics of a newer text have already been published.\n\t\t\treturn\n\t\t}\n", New: "", Fire: true, Want: "order"},
+			{Name: "benign-diagnostics-published-synchronously", Rule: "DIAG-ORDER", File: "pkg/lsp/server.go", Old: "\tgo func() {\n\t\t// Convert the parse error to lsp.Diagnostic objects and publish them.", New: "\tfunc() {\n\t\t// Convert the parse error to lsp.Diagnostic objects and publish them.", Fire: false},
 			{Name: "diagnostics-goroutine-reads-documents", Rule: "HANDLER-SYNC", File: "pkg/lsp/server.go", Old: "\t\t\t\tRange:    lspRangeFromRange(code, err),", New: "\t\t\t\tRange:    lspRangeFromRange(s.documents[uri].code, err),", Fire: true, Want: "documents", Quick: true},
 			{Name: "async-handler", Rule: "HANDLER-SYNC", File: "pkg/lsp/lsp.go", Old: "\t\thandler(s))", New: "\t\tjsonrpc2.AsyncHandler(handler(s)))", Fire: true, Want: "AsyncHandler"},
 			{Name: "diagnostics-against-stored-text", Rule: "DIAG-SOURCE", File: "pkg/lsp/server.go", Old: "\t\t\t\tRange:    lspRangeFromRange(code, err),", New: "\t\t\t\tRange:    lspRangeFromRange(s.documents[uri].code, err),", Fire: true, Want: "updateDocument"},
@@ -241,6 +248,8 @@ func runC44(p *core.Program, r *core.Report) {
 	sort.Slice(fns, func(i, j int) bool { return fns[i].String() < fns[j].String() })
 	runWireGuard(p, r, fns)
 	runHandlerSync(p, r, fns)
+	runDiagOrder(p, r, fns)
+	runLspIndex(p, r, fns)
 	runTextAgree(p, r, fns)
 	runDiagSource(p, r, fns)
 }
@@ -628,6 +637,22 @@ func runHandlerSync(p *core.Program, r *core.Report, fns []*ssa.Function) {
 	if !r.Anchor(rule, "lsp.server has a map field that is accessed", accesses >= 3) {
 		return
 	}
+	// a map field every access to which, anywhere in the package, happens with
+	// a mutex held is synchronised by that mutex and may be used from
+	// goroutines (the table of published versions)
+	unguarded := map[string]bool{}
+	for _, fn := range fns {
+		core.Instrs(fn, func(ins ssa.Instruction) {
+			if fld, ok := serverMapField(ins); ok && !anyMutexHeldAt(ins) {
+				// initialising the field of a server that is being constructed
+				// (a composite literal) is not an access to shared state
+				if _, fresh := ins.(*ssa.FieldAddr).X.(*ssa.Alloc); fresh {
+					return
+				}
+				unguarded[fld] = true
+			}
+		})
+	}
 	// functions reachable from go statements, through static callees and
 	// closures created in place, inside pkg/lsp
 	for _, fn := range fns {
@@ -655,7 +680,7 @@ func runHandlerSync(p *core.Program, r *core.Report, fns []*ssa.Function) {
 				}
 				seen[f] = true
 				core.Instrs(f, func(i2 ssa.Instruction) {
-					if fld, ok := serverMapField(i2); ok && offending == nil {
+					if fld, ok := serverMapField(i2); ok && offending == nil && unguarded[fld] {
 						offending, field = i2, fld
 					}
 					switch x := i2.(type) {
